@@ -700,6 +700,32 @@ def run(tier, seed, replay):
     ops_s = [(qutip.sigmam(), qutip.coefficient(rate_s)), (qutip.sigmap(), 0.15)]
     psis = (qutip.basis(2, 0) + 0.3 * qutip.basis(2, 1)).unit()
     tls = np.linspace(0, 2.0, 9)
+    # the Verner integrators with their option `interpolate` off: the jump search still gets the state at the time it asks
+    # for (same seeds, same jumps as with the option on, up to the search tolerance)
+    for method in ("vern7", "vern9"):
+        try:
+            with warnings.catch_warnings():
+                warnings.simplefilter("ignore")
+                with core.time_limit(300):
+                    Hv_ = 0.5 * qutip.sigmax()
+                    cv_ = [0.8 * qutip.sigmam(), 0.3 * qutip.sigmaz()]
+                    tv_ = np.linspace(0, 3.0, 7)
+                    outs_ = {}
+                    for itp_ in (True, False):
+                        ov_ = {"method": method, "interpolate": itp_, "progress_bar": "", "keep_runs_results": True, "norm_steps": 60, "atol": 1e-10, "rtol": 1e-8}
+                        outs_[itp_] = qutip.mcsolve(Hv_, qutip.basis(2, 0), tv_, cv_, e_ops=[qutip.sigmaz()], ntraj=4, seeds=77, options=ov_)
+            rep.evaluations += 1
+            rep.count("verner-interpolate-off")
+            for j_ in range(4):
+                ca_, cb_ = outs_[True].col_times[j_], outs_[False].col_times[j_]
+                wa_, wb_ = outs_[True].col_which[j_], outs_[False].col_which[j_]
+                if list(wa_) != list(wb_) or (len(ca_) and np.abs(np.array(ca_) - np.array(cb_)).max() > 5e-3):
+                    v(f"interpolate-off:{method}", f"mcsolve({method}) with interpolate=False: trajectory {j_} of the same seed has jumps {[round(float(x), 4) for x in cb_]} (channels {list(wb_)}), with interpolate=True {[round(float(x), 4) for x in ca_]} (channels {list(wa_)})", {"method": method})
+                    break
+        except core.CaseTimeout:
+            raise
+        except Exception as e:
+            v(f"interpolate-off-raises:{method}", f"mcsolve({method}, interpolate=False): {type(e).__name__}: {e}"[:240], {"method": method})
     # per-trajectory records stay aligned: entry i of runs_trace belongs to trajectory i, with and without improved sampling
     for imp_ in (False, True):
         try:
